@@ -183,8 +183,8 @@ func HC10_Illegal() {
 		if r == 0 {
 			x.illegalStep(vChoice("class", hNIllegal))
 		} else {
-			// second failed call: fixed shapes (dead entity, duplicate id, second relation, bad count)
-			x.illegalStep([4]int{2, 5, 4, 6}[vChoice("class2", 4)])
+			// second failed call: a fixed one (second relation component at creation)
+			x.opNewEntity(1<<uR1 | 1<<uR2)
 		}
 		vAssert(x.lastPan || true, "")
 		d1 := x.digest()
